@@ -342,6 +342,30 @@ pub fn gen_input_min(r: &mut Rng, f: &Family, min_len: usize, max_len: usize, tr
         }
         return v;
     }
+    if f.alphabet.contains(&"~") && f.alphabet.contains(&"^") && r.chance(3, 4) {
+        // Pratt family: mostly expression-shaped inputs (operators between atoms, a few prefix / postfix symbols, some
+        // noise), so that chains of operators of equal and of different power actually occur
+        let syms = ["+", "*", "-", "!", "^", "~"];
+        let few = [*r.pick(&syms), *r.pick(&syms), *r.pick(&syms)];
+        let mut v: Vec<&'static str> = vec![];
+        let mut want_atom = true;
+        while v.len() < n {
+            if r.chance(1, 12) {
+                v.push(*r.pick(&f.alphabet));
+            } else if want_atom {
+                if r.chance(1, 4) {
+                    v.push(*r.pick(&few));
+                } else {
+                    v.push(*r.pick(&["a", "b"]));
+                    want_atom = false;
+                }
+            } else {
+                v.push(*r.pick(&few));
+                want_atom = r.chance(3, 4);
+            }
+        }
+        return v;
+    }
     (0..n).map(|_| *r.pick(&f.alphabet)).collect()
 }
 
